@@ -17,7 +17,12 @@ AltProfile == AltProfiles[((N + 2 * flt.nc + flt.nd + (IF mode = "lto" THEN 1 EL
 \* databank does): per-mode data are keyed by mode, the listing order means nothing.  One order per flight.
 ModeOrders == <<"idle_first", "takeoff_first">>
 ModeOrder == ModeOrders[((N + flt.nc + flt.nd + (IF gse THEN 0 ELSE 1) + (IF apu = "running" THEN 1 ELSE 0)) % 2) + 1]
-Emit == PrintT("@@" \o ToJson([n |-> N, carrier |-> Carrier, profile |-> AltProfile, modeorder |-> ModeOrder, burn |-> [i \in 1..N |-> SegBurn(i)], nc |-> flt.nc, nd |-> flt.nd,
+\* The engine data bank marks an nvPM index that was not reported with -1: for every thrust mode, or for some only
+\* (mass at idle / at take-off missing, numbers not reported at all).  Whatever the form, every amount of the inventory
+\* is a finite non-negative number and the totals are the sums of the parts.  One form per flight.
+EdbForms == <<"reported", "partial_idle", "partial_takeoff", "unreported">>
+EdbForm == EdbForms[((N + 2 * flt.nc + 3 * flt.nd + (IF gse THEN 1 ELSE 0)) % 4) + 1]
+Emit == PrintT("@@" \o ToJson([n |-> N, carrier |-> Carrier, profile |-> AltProfile, modeorder |-> ModeOrder, edb |-> EdbForm, burn |-> [i \in 1..N |-> SegBurn(i)], nc |-> flt.nc, nd |-> flt.nd,
                                mode |-> mode, flows |-> flows, apu |-> apu, gse |-> gse,
                                window |-> [i \in 1..N |-> InWindow(i)], trajfuel |-> TrajFuel,
                                ltofuel |-> [m \in {"idle", "approach", "climb", "takeoff"} |-> LtoFuel(m)],
